@@ -133,7 +133,13 @@ fn mutate(rng: &mut Rng, fen: &str) -> (String, &'static str) {
                 let rows: Vec<&str> = fields[0].split('/').collect();
                 let mut rws: Vec<String> = rows.iter().map(|s| s.to_string()).collect();
                 match rng.below(5) {
-                    0 => rws.push("8".into()),
+                    0 => {
+                        // one to eight surplus rows, each a complete row (the loader must
+                        // stay inside its 12x12 array however many rows it is handed)
+                        for _ in 0..1 + rng.below(8) {
+                            rws.push(rng.pick(&["8", "pppppppp", "4p3", "PPPPPPPP", "1n6", "8"]).to_string());
+                        }
+                    }
                     1 => {
                         rws.pop();
                     }
@@ -289,6 +295,17 @@ pub fn systematic(acc: &mut Acc, z: &ZobristHasher) {
                 judge_string(&s, "substitute", acc, 0, z);
                 judge_position_cmd(&s, acc, 0, z);
             }
+        }
+        // surplus complete rows, 1 to 10 of them
+        let f: Vec<&str> = fen.split(' ').collect();
+        for extra in 1..=10 {
+            let mut placement = f[0].to_string();
+            for _ in 0..extra {
+                placement.push_str("/8");
+            }
+            let s = format!("{} {}", placement, f[1..].join(" "));
+            judge_string(&s, "placement-structure", acc, 0, z);
+            judge_position_cmd(&s, acc, 0, z);
         }
         acc.count("c15_fens_with_every_truncation_deletion_substitution");
     }
